@@ -126,12 +126,12 @@ def skey(s):
     return json.dumps([s["r"], s["m"], s["pk"], s["vw"], s["vp"]])
 
 
-def export_graph(cfg_text, name, env, workers=16, timeout=1500):
+def export_graph(cfg_text, name, env, workers=16, timeout=1500, coverage=False):
     path = os.path.join(WORK, f"{name}.cfg")
     os.makedirs(WORK, exist_ok=True)
     with open(path, "w") as f:
         f.write(cfg_text)
-    res = tlc("HvsrObjectMC", cfg=path[:-4], workers=workers, timeout=timeout, env=env, workname=f"tlc-{name}")
+    res = tlc("HvsrObjectMC", cfg=path[:-4], workers=workers, timeout=timeout, env=env, workname=f"tlc-{name}", coverage=coverage)
     require_tlc_ok(res, name)
     print(f"  [tlc {name}] {res.distinct} states / {res.generated} transitions in {res.wall_s:.1f}s")
     return res, Graph(res.cases)
